@@ -297,7 +297,7 @@ func genC18(t *Tape, tier string) *Scenario {
 	if !slow && t.Chance(1, 8) {
 		// fault stratum: the conversation is broken off somewhere; the client may report
 		// anything but a delivery the backend did not make
-		x.Fault = 1 + t.Intn(4)
+		x.Fault = 1 + t.Intn(5)
 		switch x.Fault {
 		case 1:
 			sc.Admin = []AdminStep{{At: Dur(t.Intn(80)) * 100 * time.Microsecond, Kind: aClose}}
@@ -307,6 +307,8 @@ func genC18(t *Tape, tier string) *Scenario {
 			sc.BE.Conns[0].Data[k].PanicWhen = t.Intn(4)
 		case 3:
 			cs.SrvFaults.FailWriteAt = 1 + t.Intn(4+6*ntx)
+		case 5:
+			cs.CliFailWriteAt = 1 + t.Intn(4+7*ntx)
 		default:
 			cs.SrvFaults.BlockWriteAt = 1 + t.Intn(4+6*ntx)
 			sc.Srv.WriteTO = 0
@@ -483,7 +485,7 @@ func classifyC18(sc *Scenario, h *History, st *Stats) string {
 		st.Probes["second_or_later_transaction"]++
 	}
 	if x.Fault > 0 {
-		st.Faults["conversation_broken_off_"+[]string{"", "by_Server.Close", "by_backend_panic", "by_failing_reply_write", "by_blocked_reply_write"}[x.Fault]]++
+		st.Faults["conversation_broken_off_"+[]string{"", "by_Server.Close", "by_backend_panic", "by_failing_reply_write", "by_blocked_reply_write", "by_failing_client_write"}[x.Fault]]++
 	}
 	if c := h.Conns[0].Client; c != nil {
 		for _, r := range c.Results {
